@@ -312,6 +312,19 @@ UUID_RE = re.compile(r'[0-9a-f]{8}-[0-9a-f]{4}-4[0-9a-f]{3}-[89ab][0-9a-f]{3}-[0
 BDFS = ['0000:25:00.%x' % i for i in range(8)]
 
 
+KINDS = [None, 's', 0, 1, 2, 3]      # bdf label of one port: absent / a single address / a list of k addresses
+LX = ['', 'm', 'v', 'mv']            # other label fields of one port: mac and/or vlan_range present
+
+
+def mk_extra(i, x):
+    kw = {}
+    if 'm' in x:
+        kw['mac'] = '02:00:00:00:00:%02x' % i
+    if 'v' in x:
+        kw['vlan_range'] = '%d-%d' % (i + 1, i + 100)
+    return kw
+
+
 def mk_bdf(kind):
     if kind is None:
         return None
@@ -322,7 +335,8 @@ def mk_bdf(kind):
 
 class Components(Stream):
     """case = {'name', 'sel': ['tm', ctype|None, model|None] | ['mt', member_name], 'nsid', 'ids', 'labs': [bdf-kind...]|None,
-               'parent'}; bdf-kind: None | 's' (scalar) | k (list of k)"""
+               'lx': [other label fields per port: '' | 'm' | 'v' | 'mv'] (default all 'm'), 'parent'};
+               bdf-kind: None | 's' (scalar) | k (list of k)"""
     name = 'components'
     header = HDR
     case_type = 'comp_case * val'
@@ -330,6 +344,8 @@ class Components(Stream):
     shard = 300
     rule = ('every catalogue entry x selector (type+model, each AlsoModels alias, combined model_type member) x '
             '(ids, labels) shape (absent / exact / short / long; bdf absent, list of 0..3, scalar) x ns id x parent name x '
+            'component name; for multi-port entries EVERY ordered combination of per-port bdf shapes (absent / scalar / list of 0..3), '
+            'mac and vlan_range labels present or absent per port; '
             'component name; plus failing look-ups; non-trivial = entry has interfaces and ids or labels are supplied')
 
     def catalog(self):
@@ -364,6 +380,21 @@ class Components(Stream):
                                 continue
                             out.append({'name': rng.choice(names), 'sel': s, 'nsid': nsid, 'ids': ids, 'labs': labs,
                                         'parent': parent})
+            if n >= 2:
+                # per-port label shapes chosen INDEPENDENTLY: every ordered combination of bdf shapes across the ports
+                # (a loop that carries state from one port to the next shows only on mixed shapes), the other label
+                # fields (mac, vlan_range) present or absent per port at random.  Never sampled away for the
+                # type+model selector; sampled for the aliases / combined member.
+                for kinds in itertools.product(KINDS, repeat=n):
+                    if len(set(map(repr, kinds))) == 1:
+                        continue            # uniform shapes are above
+                    for si, s in enumerate(sels):
+                        for ids in (None, ids_ok):
+                            if si > 0 and (tier == 'quick' or rng.random() > 0.5) and rng.random() > 0.15:
+                                continue
+                            out.append({'name': rng.choice(names), 'sel': s, 'nsid': rng.choice([None, 'ns-7']), 'ids': ids,
+                                        'labs': list(kinds), 'lx': [rng.choice(LX) for _ in kinds],
+                                        'parent': rng.choice([None, 'node1'])})
         types = sorted(set(e['Type'] for e in cat))
         models = sorted(set([e['Model'] for e in cat] + [a for e in cat for a in e.get('AlsoModels', [])]))
         for t in types:
@@ -387,8 +418,9 @@ class Components(Stream):
         labs = None
         if case['labs'] is not None:
             labs = []
+            lx = case.get('lx') or ['m'] * len(case['labs'])
             for i, k in enumerate(case['labs']):
-                kw = {'mac': '02:00:00:00:00:%02x' % i}
+                kw = mk_extra(i, lx[i])
                 b = mk_bdf(k)
                 if b is not None:
                     kw['bdf'] = b
@@ -429,9 +461,15 @@ class Components(Stream):
                         tag = j
                 cap = i.capacities
                 others = [v for f, v in cap.__dict__.items() if f not in ('unit', 'bw')] + \
-                         [v for f, v in l.__dict__.items() if f not in ('bdf', 'mac', 'local_name')]
+                         [v for f, v in l.__dict__.items() if f not in ('bdf', 'mac', 'vlan_range', 'local_name')]
                 if key != i.resource_name or any(others):
                     return {'err': 'SHAPE:interface %s' % key}
+                if tag is not None:
+                    want = mk_extra(tag, (case.get('lx') or ['m'] * len(labs))[tag])
+                    if (l.mac, l.vlan_range) != (want.get('mac'), want.get('vlan_range')):
+                        return {'err': 'SHAPE:interface %s mac/vlan_range labels changed' % key}
+                elif l.mac is not None or l.vlan_range is not None:
+                    return {'err': 'SHAPE:interface %s got mac/vlan_range labels nobody supplied' % key}
                 fresh.append(i.node_id)
                 ifs.append([i.resource_name, None if i.resource_type is None else str(i.resource_type), idv(i.node_id),
                             tag, l.bdf, l.local_name, cap.unit, cap.bw])
@@ -525,7 +563,8 @@ class Components(Stream):
             want_unit = len(want_bdf) if isinstance(want_bdf, list) else 1
             if unit != want_unit:
                 return 'unit count %r instead of %r for %s' % (
-                    unit, want_unit, 'a scalar bdf label' if isinstance(want_bdf, str) else 'bdf list of %d' % len(want_bdf))
+                    unit, want_unit, 'a scalar bdf label' if isinstance(want_bdf, str) else
+                    'no bdf label' if want_bdf is None else 'bdf list of %d' % len(want_bdf))
         return None
 
     def key(self, case, o):
@@ -535,7 +574,7 @@ class Components(Stream):
         return None
 
     def histogram(self, cases, obs):
-        h = {'ok': 0, 'by_model_type': 0, 'alias': 0, 'scalar_bdf': 0}
+        h = {'ok': 0, 'by_model_type': 0, 'alias': 0, 'scalar_bdf': 0, 'mixed_port_shapes': 0}
         for c, o in zip(cases, obs):
             if isinstance(o, dict):
                 h[o['err']] = h.get(o['err'], 0) + 1
@@ -543,6 +582,7 @@ class Components(Stream):
                 h['ok'] += 1
             h['by_model_type'] += c['sel'][0] == 'mt'
             h['scalar_bdf'] += bool(c['labs']) and 's' in c['labs']
+            h['mixed_port_shapes'] += bool(c['labs']) and len(set(map(repr, c['labs']))) > 1
         cat = self.catalog()
         al = set(a for e in cat for a in e.get('AlsoModels', []))
         h['alias'] = sum(1 for c in cases if c['sel'][0] == 'tm' and c['sel'][2] in al)
